@@ -34,7 +34,20 @@ def _cname(c):
 def check_pure(eng, run):
     db = eng.db
     proto = db.cls("protocol.DatagramProtocol")
-    allowed_reads = {mangle(proto.name, "__serializer"), mangle(proto.name, "__converter")}
+    # the configuration fixed at construction: attributes that __init__ stores from its own parameters (the serializer and the
+    # converter), whatever they are called
+    init = proto.methods.get("__init__")
+    if init is None:
+        raise AnalysisError("anchor vanished: DatagramProtocol.__init__")
+    iparams = {a.arg for a in init.params()}
+    allowed_reads = set()
+    for st in own_nodes(init.node):
+        if isinstance(st, (ast.Assign, ast.AnnAssign)) and st.value is not None and isinstance(st.value, ast.Name) and st.value.id in iparams:
+            for t in (st.targets if isinstance(st, ast.Assign) else [st.target]):
+                if isinstance(t, ast.Attribute) and isinstance(t.value, ast.Name) and t.value.id == init.self_name:
+                    allowed_reads.add(mangle(proto.name, t.attr))
+    if len(allowed_reads) < 2:
+        raise AnalysisError("anchor vanished: serializer / converter attributes of DatagramProtocol")
     for name in ("make_datagram", "build_packet_from_datagram"):
         fn = proto.methods.get(name)
         if fn is None:
@@ -82,6 +95,7 @@ def check_pure(eng, run):
 
 
 class Card(RuleAnalysis):
+    inline_helpers = True
     """fact = (n_in, n_mid, in_loop_violation) with counts capped at 2."""
     tokens = ("Exception", CANCELLED)
 
@@ -122,7 +136,10 @@ class Card(RuleAnalysis):
 
 
 def _single_binding_flow(fn, producer: str, consumer: str) -> tuple[bool, str]:
-    """the value passed to `consumer(...)` is a name bound exactly once, from `producer(...)`, and passed as is"""
+    """the value passed to `consumer(...)` is a name bound exactly once, from `producer(...)`, and passed as is.  Either call may
+    sit in a private helper of the same class / module: a helper that receives the value in a namesake parameter and hands it to
+    `consumer`, a helper all of whose returns are `producer(...)` (the error-wrapping wrappers an extract-method leaves behind)."""
+    from sa.norm import nodes_inl, private_helper
     binds = {}
     for n in own_nodes(fn.node):
         if isinstance(n, (ast.Assign, ast.AnnAssign)) and getattr(n, "value", None) is not None:
@@ -132,21 +149,43 @@ def _single_binding_flow(fn, producer: str, consumer: str) -> tuple[bool, str]:
                     binds.setdefault(t.id, []).append(n.value)
         if isinstance(n, ast.AugAssign) and isinstance(n.target, ast.Name):
             binds.setdefault(n.target.id, []).append(n)
-    for n in own_nodes(fn.node):
+
+    def produced(v, depth=0) -> bool:
+        v = v.value if isinstance(v, ast.Await) else v
+        if isinstance(v, ast.Call) and _cname(v) == producer:
+            return True
+        if isinstance(v, ast.Call) and depth < 2:
+            g = private_helper(fn, v)
+            if g is not None:
+                rets = [r.value for r in own_nodes(g.node) if isinstance(r, ast.Return)]
+                return bool(rets) and all(r is not None and produced(r, depth + 1) for r in rets)
+        return False
+
+    for n, owner in nodes_inl(fn):
         if isinstance(n, ast.Call) and _cname(n) == consumer:
             if not n.args:
                 return False, "no positional argument"
             a = n.args[0]
             if not isinstance(a, ast.Name):
                 return False, f"`{ast.unparse(a)}` is not the plain value produced by {producer}()"
-            vals = binds.get(a.id, [])
+            name = a.id
+            if owner is not fn:
+                # the helper got it in a namesake parameter: follow it to the caller's variable
+                call = next((c for c in own_nodes(fn.node) if isinstance(c, ast.Call) and private_helper(fn, c) is owner), None)
+                ps = [x.arg for x in owner.params()]
+                if owner.cls is not None and ps and not owner.has_decorator("staticmethod"):
+                    ps = ps[1:]
+                if call is None or name not in ps or ps.index(name) >= len(call.args) or not isinstance(call.args[ps.index(name)], ast.Name):
+                    return False, f"`{name}` reaches {consumer}() through a helper in a way that cannot be followed"
+                if any(isinstance(t, ast.Name) and t.id == name and isinstance(t.ctx, ast.Store) for t in own_nodes(owner.node)):
+                    return False, f"`{name}` is re-bound in {owner.name}() before it reaches {consumer}()"
+                name = call.args[ps.index(name)].id
+            vals = binds.get(name, [])
             if len(vals) != 1:
-                return False, f"`{a.id}` is bound {len(vals)} times"
-            v = vals[0]
-            v = v.value if isinstance(v, ast.Await) else v
-            if not (isinstance(v, ast.Call) and _cname(v) == producer):
-                return False, f"`{a.id}` is not the result of {producer}()"
-            return True, a.id
+                return False, f"`{name}` is bound {len(vals)} times"
+            if not produced(vals[0]):
+                return False, f"`{name}` is not the result of {producer}()"
+            return True, name
     return False, f"no call of {consumer}()"
 
 
@@ -294,9 +333,10 @@ def check_err(eng, run):
             run.finding("C05.err", fn, fn.node, f"`{t}` can leave the datagram receive; only DatagramProtocolParseError or the documented RuntimeError may")
         # contract violations of a user serializer/converter are wrapped (documented RuntimeError), never leaked raw
         wrap = False
-        for t in [x for x in own_nodes(fn.node) if isinstance(x, ast.Try)]:
+        from sa.norm import nodes_inl
+        for t, t_owner in [(x, o) for x, o in nodes_inl(fn) if isinstance(x, ast.Try)]:
             for h in t.handlers:
-                names = eng.lattice.handler_classes(fn, h.type)
+                names = eng.lattice.handler_classes(t_owner, h.type)
                 if eng.lattice.match(names, "Exception", ("Exception",)) == "must" and any(isinstance(r, ast.Raise) and r.exc is not None and "RuntimeError" in ast.unparse(r.exc) for r in h.body):
                     wrap = True
         if not wrap:
@@ -530,19 +570,20 @@ def run(eng, run):
     from sa.anchors import verify as _verify_anchor_names
     _verify_anchor_names(eng, run)
     run.not_decided += NOT_DECIDED
-    check_drop(eng, run)
-    check_sep(eng, run)
-    check_pure(eng, run)
-    check_card(eng, run)
-    check_oneshot(eng, run)
-    check_err(eng, run)
-    check_bufsize(eng, run)
-    check_callbacks(eng, run)
-    check_codec(eng, run)
+    run.attempt(check_drop, eng, run)
+    run.attempt(check_sep, eng, run)
+    run.attempt(check_pure, eng, run)
+    run.attempt(check_card, eng, run)
+    run.attempt(check_oneshot, eng, run)
+    run.attempt(check_err, eng, run)
+    run.attempt(check_bufsize, eng, run)
+    run.attempt(check_callbacks, eng, run)
+    run.attempt(check_codec, eng, run)
     from sa.analyses.sharing import check_unbounded_queues
-    check_unbounded_queues(eng, run, "C05.drop", lambda m: "datagram" in m or m.endswith(("clients.udp", "clients.async_udp", "servers.async_udp")), 2)
+    run.attempt(check_unbounded_queues, eng, run, "C05.drop", lambda m: "datagram" in m or m.endswith(("clients.udp", "clients.async_udp", "servers.async_udp")), 2)
     from sa.analyses.arms import check_dead_arms
-    check_dead_arms(eng, run, "C05.arms", ("clients.udp", "clients.async_udp", "lowlevel.api_async.endpoints.datagram", "lowlevel.api_sync.endpoints.datagram", "lowlevel.api_async.servers.datagram", "protocol"), 6)
+    run.attempt(check_dead_arms, eng, run, "C05.arms", ("clients.udp", "clients.async_udp", "lowlevel.api_async.endpoints.datagram", "lowlevel.api_sync.endpoints.datagram", "lowlevel.api_async.servers.datagram", "protocol"), 6)
+    run.end_of_rules()
 
 
 # ---------------------------------------------------------------------------------------------- self-test corpus
